@@ -598,7 +598,7 @@ func (c *compiled) vmCall(f *Fn, tuple []string) (outcome string, diag string) {
 	if c.initOff >= 0 {
 		v.Call(c.initOff)
 	}
-	sentinel := stackitem.NewByteArray([]byte("c14-sentinel"))
+	sentinel := stackitem.NewInterop("c14-sentinel") // arithmetic or indexing on it faults: a function must not touch what lies below its arguments
 	v.Estack().PushItem(sentinel)
 	for i := len(tuple) - 1; i >= 0; i-- {
 		v.Estack().PushItem(argItem(f.Params[i], tuple[i]))
@@ -620,6 +620,9 @@ func (c *compiled) vmCall(f *Fn, tuple []string) (outcome string, diag string) {
 			}
 			if st := v.Estack(); st.Len() > 0 {
 				if bi, ok := st.Peek(0).Item().(*stackitem.BigInteger); ok && bi.Big().BitLen() > 63 {
+					if os.Getenv("C14_DEBUG") != "" && !big {
+						fmt.Printf("DEBUG big value %s (%d bits) on the stack\n", bi.Big().String(), bi.Big().BitLen())
+					}
 					big = true
 				}
 			}
